@@ -118,7 +118,7 @@ def check(run, replay=None):
                 continue
             desc = {"spec": spec}
             d0 = json.dumps(wn.to_dict(), sort_keys=True, default=str)
-            r1, e1, w1, _ = simrun.run(wntr, wn)
+            r1, e1, w1, sim1 = simrun.run(wntr, wn)
             d1 = json.dumps(wn.to_dict(), sort_keys=True, default=str)
             run.case({"net": k, "what": "to_dict after WNTRSimulator"}, True, None)
             run.count("wntr runs")
@@ -138,6 +138,24 @@ def check(run, replay=None):
                     why = results_close(r1, r2)
                     if why:
                         run.violation("rerun_after_reset_differs", "results after reset_initial_values differ: " + why, input=desc)
+                # the same simulator OBJECT used again after a reset
+                wn.reset_initial_values()
+                r4 = e4 = None
+                w4 = []
+                with warnings.catch_warnings(record=True) as w4r:
+                    warnings.simplefilter("always")
+                    try:
+                        r4 = sim1.run_sim()
+                    except Exception as e:  # noqa
+                        e4 = "%s: %s" % (type(e).__name__, e)
+                    w4 = [str(x.message) for x in w4r]
+                run.count("simulator object reused")
+                if not simrun.converged(r4, e4, w4):
+                    run.violation("rerun_after_reset_fails", "the run of the SAME simulator object after reset_initial_values does not complete: %s %s" % (e4, w4[:1]), input=desc)
+                else:
+                    why = results_close(r1, r4)
+                    if why:
+                        run.violation("rerun_after_reset_differs", "results of the same simulator object after reset_initial_values differ: " + why, input=desc)
                 # a third cycle and a deepcopy
                 wn.reset_initial_values()
                 wn_c = copy.deepcopy(wn)
